@@ -79,9 +79,14 @@ fn check(c: &Case, ctx: &Ctx) -> Outcome {
             for n in &names[2..] {
                 args.push(n);
             }
-            args.extend_from_slice(&["-o", "m"]);
+            // half of the nested merges grow the collection in place: the output is the first input
+            let in_place = (k / 2 + files.len() + samples.len()) % 2 == 0;
+            args.extend_from_slice(&["-o", if in_place { "m1" } else { "m" }]);
             let o = run_ska(ctx, &dir, &args);
             must_ok(&o, "ska merge (outer, first input is a merged file)")?;
+            if in_place {
+                std::fs::rename(dir.join("m1.skf"), dir.join("m.skf")).map_err(|e| Outcome::Infra(e.to_string()))?;
+            }
         } else if c.nested && files.len() == 2 {
             // merged file as the *second* argument: (g0) + (g1+g0') is not possible without
             // duplicate names, so nest on the right with a third build of the last sample set
